@@ -145,8 +145,24 @@ def draw_cell(draw, rule, tail, violating, closed=()):
     elif rule == "produced_and_used":
         if num:
             x = g.pick(num)
-            second = ["col", "fresh_a"] if V else ["col", x]
-            step = {"op": "extend", "ops": [["fresh_a", ["call", "+", [["col", x], ["lit", 1]]]], ["fresh_b", ["call", "+", [second, ["lit", 2]]]]]}
+            form = g.pick(["fresh_then_read", "overwrite_then_read", "read_then_overwrite", "project_overwrite_then_read", "project_read_then_overwrite"])
+            others = [c for c in num if c != x]
+            if form == "fresh_then_read" or not others:
+                second = ["col", "fresh_a"] if V else ["col", x]
+                step = {"op": "extend", "ops": [["fresh_a", ["call", "+", [["col", x], ["lit", 1]]]], ["fresh_b", ["call", "+", [second, ["lit", 2]]]]]}
+            else:
+                # x is overwritten AND read by another assignment of the same step (in either order); conforming twin:
+                # the other assignment reads a different column (a self-update x := f(x) alone is allowed)
+                y = g.pick(others)
+                rd = ["col", x] if V else ["col", y]
+                if form.startswith("project"):
+                    upd = [x, ["call", "min", [["col", x]]]]
+                    oth = ["fresh_b", ["call", "max", [rd]]]
+                    step = {"op": "project", "ops": [upd, oth] if "overwrite_then_read" in form else [oth, upd], "group_by": []}
+                else:
+                    upd = [x, ["call", "*", [["col", x], ["lit", 2]]]]
+                    oth = ["fresh_b", ["call", "+", [rd, ["lit", 1]]]]
+                    step = {"op": "extend", "ops": [upd, oth] if form == "overwrite_then_read" else [oth, upd]}
     elif rule in ("non_agg_project", "complex_project", "non_agg_window", "complex_window"):
         if num and (rule.endswith("project") or keyc):
             x = g.pick(num)
